@@ -47,6 +47,15 @@ def make_cases(tier, seed):
                         lb = [[a, r + fr * hR, z + fz * hZ, w] for a, r, z, w in lobes]
                         cases.append({"id": len(cases) + 1, "family": name, "lobes": lb, "nR": nR, "nZ": nZ, "sign": sign, "psinorm_sol": sol,
                                       "nx_inter_sep": 1 if name in ("ldn", "udn", "ldn_tilt") else 0})
+    # a single critical point of a pure quadratic (which the spline reproduces exactly) at exact fractions of a cell, including the
+    # mid-lines where two or four grid nodes are equally close: find_critical only, no equilibrium is built
+    for (nR, nZ) in res[:2]:
+        hR, hZ = 1.0 / (nR - 1), 1.4 / (nZ - 1)
+        for (fr, fz) in [(0.0, 0.0), (0.5, 0.0), (0.0, 0.5), (0.5, 0.5), (0.25, 0.5), (0.5, 0.75)]:
+            for k in (1.3, -1.3):
+                for sign in (1, -1):
+                    cases.append({"id": len(cases) + 1, "family": "quad_%s_%s_%s" % ("X" if k < 0 else "O", str(fr).replace(".", "p"), str(fz).replace(".", "p")),
+                                  "lobes": [["quadnode", nR // 2 - 2, fr, nZ // 2, fz, k]], "nR": nR, "nZ": nZ, "sign": sign, "psinorm_sol": 1.1, "nx_inter_sep": 0, "notok": 1})
     # random perturbations of the lobes (thorough: more)
     for k in range(12 if tier == "quick" else 150):
         name = rng.choice(list(BASE))
@@ -98,7 +107,7 @@ def run(tier, seed):
         raise MachineryError("critical_run driver error: %s\n%s" % (errs[0]["driver_error"], errs[0].get("tb")))
     skipped = [r for r in recs if r["skip"]]
     good = [r for r in recs if not r["skip"]]
-    tr = [{k: r[k] for k in ("id", "tie", "truth_x", "truth_o", "found_o", "found_x", "postol", "psitol", "tok")} for r in good]
+    tr = [{k: r[k] for k in ("id", "tie", "notok", "truth_x", "truth_o", "found_o", "found_x", "postol", "psitol", "tok")} for r in good]
     failed, res = judge(tr, d, "cr")
     v.add_tlc(res)
     v.add_traces(len(good))
